@@ -22,15 +22,26 @@
 (*                                                                         *)
 (* Files are identified by (session, serial, kind); the random path        *)
 (* component is a function of those.  The hash of a file is identified     *)
-(* with its body.  Quirks modelled as coded:                               *)
-(*  - file::create_file does not truncate: writing a shorter text over a   *)
-(*    longer left-over leaves the old tail (new-notification.xml after an  *)
-(*    interrupted write; files in a left-over rsync tmp-N directory);      *)
-(*  - tmp-N is named after the serial only and is never cleaned: a         *)
-(*    left-over tmp-N is reused, with its stale files, by a later write    *)
-(*    with the same serial (after a session reset);                        *)
-(*  - rename(current, old) fails if a non-empty old/ is left over (S3);    *)
-(*  - clean-up is best effort: an error there is skipped.                  *)
+(* with its body.                                                          *)
+(*                                                                         *)
+(* Four defects this specification exposed in the pinned tree have been    *)
+(* repaired in /repo; constants select the behaviour that is modelled, so  *)
+(* that the defective variants stay checkable (MC_RepoFiles_pinned.cfg):   *)
+(*  - TruncateOnCreate: file::create_file used to open without O_TRUNC:    *)
+(*    a shorter text over a longer left-over kept the old tail             *)
+(*    (new-notification.xml after an interrupted write; files in a         *)
+(*    left-over rsync tmp-N directory).  Repaired by 99a13ae1.             *)
+(*  - RemoveTmpFirst: tmp-N is named after the serial only; a left-over    *)
+(*    tmp-N used to be reused, with its stale files, by a later write with *)
+(*    the same serial (after a session reset).  Repaired by 6e18ad8e: it   *)
+(*    is removed first (fault point "rsync_remove_tmp").                   *)
+(*  - RemoveOldFirst: rename(current, old) used to fail for ever once a    *)
+(*    non-empty old/ was left over (S3).  Repaired by 0b66fb18: old/ is    *)
+(*    removed first (fault point "rsync_remove_old", which can therefore   *)
+(*    fire twice in one write).                                            *)
+(*  - MaxNrEquality (PubServer): see there.  Repaired by 3d66903f.         *)
+(* Still as coded: clean-up is best effort, an error there is skipped;     *)
+(* tmp-N directories of other serials are never cleaned (harmless).        *)
 (***************************************************************************)
 EXTENDS PubServer
 
@@ -38,6 +49,9 @@ CONSTANTS
     MaxFaults,          \* model bound on crashes + injected errors
     TruncateOnCreate,   \* FALSE: file::create_file opens without O_TRUNC
                         \*   (as coded, file.rs:84-113)
+    RemoveTmpFirst,     \* TRUE: a left-over rsync/tmp-<serial> is removed
+                        \*   before it is created (rsync.rs, fault point
+                        \*   "rsync_remove_tmp"); FALSE: it is reused
     RemoveOldFirst      \* FALSE: a left-over rsync/old is not removed
                         \*   before rename(current, old) (as coded,
                         \*   rsync.rs:118-131); TRUE: it is, through the
@@ -151,6 +165,9 @@ DeltaFile(d) == [s |-> session, n |-> d.n, k |-> "delta", body |-> d.body, dup |
 SnapFile == [s |-> session, n |-> serial, k |-> "snap", body |-> SnapBody, dup |-> SnapDup]
 RefOf(f) == [s |-> f.s, n |-> f.n, k |-> f.k, dn |-> f.n, body |-> f.body, dup |-> f.dup]
 
+TmpOf(n) == {t \in rsTmp : t.n = n}
+TmpObjs(n) == IF TmpOf(n) = {} THEN {} ELSE (CHOOSE t \in TmpOf(n) : TRUE).objs
+
 \* the ops allowed next
 NextOps ==
     CASE w.phase = "rrdp" /\ w.step = "deltas" /\ w.dq # <<>> ->
@@ -160,7 +177,9 @@ NextOps ==
       [] w.phase = "rrdp" /\ w.step = "newnotif" -> {<<"newnotif">>}
       [] w.phase = "rrdp" /\ w.step = "rename" -> {<<"rename">>}
       [] w.phase = "clean" -> w.ops
-      [] w.phase = "rsync" /\ w.step = "tmp" -> {<<"tmp", serial>>}
+      [] w.phase = "rsync" /\ w.step = "tmp" ->
+            IF RemoveTmpFirst /\ TmpOf(serial) # {} THEN {<<"rmtmp", serial>>}
+            ELSE {<<"tmp", serial>>}
       [] w.phase = "rsync" /\ w.step = "files" /\ w.tf # {} ->
             {<<"tmpfile", serial, x[2][1]>> : x \in w.tf}
       [] w.phase = "rsync" /\ w.step = "files" /\ w.tf = {} ->
@@ -184,9 +203,6 @@ CleanOps(fs) ==
 \* (serials have one digit in all runs)
 NotifText(refs) == [state |-> "ok", s |-> session, n |-> serial,
                     snap |-> RefOf(SnapFile), deltas |-> refs]
-
-TmpOf(n) == {t \in rsTmp : t.n = n}
-TmpObjs(n) == IF TmpOf(n) = {} THEN {} ELSE (CHOOSE t \in TmpOf(n) : TRUE).objs
 
 Overwrite(O, u, c) ==
     LET old == {o \in O : o[1] = u}
@@ -244,6 +260,9 @@ FsStep(op) ==
               /\ files' = {f \in files : ~(f.s = session /\ f.n = op[2] /\ f.k = "snap")}
               /\ w' = IF w.ops = {op} THEN RsyncPlan ELSE [w EXCEPT !.ops = @ \ {op}]
               /\ UNCHANGED <<notif, newnotif, rsCur, rsOld, rsTmp, seen>>
+         [] op[1] = "rmtmp" ->
+              /\ rsTmp' = rsTmp \ TmpOf(serial)
+              /\ UNCHANGED <<notif, newnotif, files, rsCur, rsOld, seen, w>>
          [] op[1] = "tmp" ->
               /\ rsTmp' = IF TmpOf(serial) = {} THEN rsTmp \cup {[n |-> serial, objs |-> {}]}
                           ELSE rsTmp
@@ -403,6 +422,11 @@ DeltasContiguousOnDisk ==
 DeltasBoundedOnDisk ==
     notif.state = "ok" /\ MinAge = "zero" =>
         Len(notif.deltas) <= (IF MaxNr > MinNr + 1 THEN MaxNr ELSE MinNr + 1)
+
+\* The literal reading: "the retained deltas never exceed the configured
+\* maximum number" - without the precedence of the "always keep" rules.
+DeltasNeverExceedMaxNrOnDisk ==
+    notif.state = "ok" => Len(notif.deltas) <= MaxNr
 
 \* the notification never goes back within a session, and names only
 \* sessions and serials the server has been in
